@@ -15,12 +15,56 @@ P = emit.P
 KINDS = [('string', 'ObjStringIter'), ('tuple', 'ObjTupleIter'), ('vec', 'ObjVecIter'), ('range', 'ObjRangeIter')]
 
 
+def stores_to(f, field):
+    out = []
+    for bi in f.normal_blocks():
+        for i, s in enumerate(f.blocks[bi]['s']):
+            ps = (s.get('d') or {}).get('p') or []
+            if ps and isinstance(ps[-1], dict) and ps[-1].get('n') == field:
+                out.append((bi, i))
+    return out
+
+
+def reads_of(f, field, pred=lambda rr: True):
+    """statements whose rvalue reads <something>.field directly (use / cast of the field place)"""
+    out = []
+    for bi in f.normal_blocks():
+        for i, s in enumerate(f.blocks[bi]['s']):
+            rr = s.get('r', {})
+            pl = op_place(rr.get('o', {}) or {}) if rr.get('rv') in ('use', 'cast') else None
+            ps = (pl or {}).get('p') or []
+            if ps and isinstance(ps[-1], dict) and ps[-1].get('n') == field and pred(rr) and not (s.get('d') or {}).get('p'):
+                out.append((bi, i, s['d']['l']))
+    return out
+
+
+def copy_source(f, l, depth=6):
+    """follow `l = copy/move m` chains of plain locals back to the first local"""
+    for _ in range(depth):
+        defs = [s_ for b in f.blocks for s_ in b['s'] if (s_.get('d') or {}).get('l') == l and not s_['d'].get('p')]
+        if len(defs) != 1 or defs[0]['r'].get('rv') != 'use':
+            return l
+        pl = op_place(defs[0]['r']['o'])
+        if pl is None or pl.get('p'):
+            return l
+        l = pl['l']
+    return l
+
+
+def before(f, a, b):
+    """program point a = (block, idx) is executed before b on every path that reaches both, and never after it"""
+    if a[0] == b[0]:
+        return a[1] < b[1]
+    return a[0] not in f.reachable_blocks(b[0]) and b[0] in f.reachable_blocks(a[0])
+
+
 def run(rep):
     w = rep.world('dev')
     q1(rep, w)
     q2(rep, w)
     q3(rep, w)
     q4(rep, w)
+    q5(rep, w)
 
 
 def q1(rep, w):
@@ -80,10 +124,16 @@ def q3(rep, w):
                 if rr.get('rv') == 'bin' and rr['op'].startswith('Add') and (op_const(rr['b']) or {}).get('v') == 1 and 'current' in operand_fields(f, org, rr['a']):
                     incs.append(bi)
         ok = len(idx) == 1 and len(incs) == 1
-        if ok:
+        st = stores_to(f, 'current')
+        if ok and len(st) == 1:
             ib, it = idx[0]
-            ok = 'current' in operand_fields(f, org, it['args'][1]) and '#bin' not in {tok for q in org.get(op_place(it['args'][1])['l'], ()) for tok in q}
-            ok = ok and (incs[0] in f.reachable_blocks(ib)) and not (ib in f.reachable_blocks(incs[0]) and ib != incs[0])
+            rd = {l: (b_, i_) for (b_, i_, l) in reads_of(f, 'current', lambda rr: rr.get('rv') == 'use')}
+            ipl = op_place(it['args'][1])
+            src = copy_source(f, ipl['l']) if ipl and not ipl.get('p') else None
+            # the index is the cursor value read before the cursor is advanced (no arithmetic on it)
+            ok = src in rd and before(f, rd[src], st[0])
+        else:
+            ok = False
         r.check(ok, '%s::next returns elements[current], then current += 1' % ty, '%s::next no longer yields the element at the cursor before advancing by one '
                 '(skipped or repeated elements)' % ty, f.loc())
     f = w.require_fn(OBJ + 'ObjRangeIter::next', 'C18')
@@ -92,7 +142,12 @@ def q3(rep, w):
     ok = len(add) == 1 and {'current'} <= operand_fields(f, org, add[0]['r']['a']) and 'step' in operand_fields(f, org, add[0]['r']['b'])
     endcmp = any(s.get('r', {}).get('rv') == 'bin' and s['r']['op'] == 'Eq' and 'end' in (operand_fields(f, org, s['r']['a']) | operand_fields(f, org, s['r']['b']))
                  for b in f.blocks for s in b['s'])
-    r.check(ok and endcmp, 'ObjRangeIter::next yields current, then current += step, stops at end', 'the range cursor arithmetic changed', f.loc())
+    rd = {l: (b_, i_) for (b_, i_, l) in reads_of(f, 'current', lambda rr: rr.get('rv') == 'use')}
+    casts = [copy_source(f, op_place(x['r']['o'])['l']) for b in f.blocks for x in b['s'] if x.get('r', {}).get('rv') == 'cast' and x['r'].get('ck') == 'IntToFloat' and op_place(x['r']['o'])]
+    st = stores_to(f, 'current')
+    order = len(casts) == 1 and casts[0] in rd and len(st) == 1 and before(f, rd[casts[0]], st[0])
+    r.check(ok and endcmp and order, 'ObjRangeIter::next yields current, then current += step, stops at end',
+            'the range cursor no longer yields the value at the cursor before advancing it by step (arithmetic %s, end test %s, value read before the store %s)' % (ok, endcmp, order), f.loc())
     n = w.require_fn(OBJ + 'ObjRangeIter::new', 'C18')
     steps = sorted({(op_const(s['r']['o']) or {}).get('v') for b in n.blocks for s in b['s'] if s.get('r', {}).get('rv') == 'use' and
                     n.crate.tstr(n.local_ty(s['d']['l'])) == 'isize' and op_const(s['r']['o']) is not None and not s['d'].get('p')})
@@ -102,7 +157,18 @@ def q3(rep, w):
     inc1 = any(x.get('r', {}).get('rv') == 'bin' and x['r']['op'].startswith('Add') and (op_const(x['r']['b']) or {}).get('v') == 1 and 'pos' in operand_fields(s_, org, x['r']['a'])
                for b in s_.blocks for x in b['s'])
     scan = any((callee_name(t) or '').endswith('is_char_boundary') for _, t in s_.calls())
-    r.check(inc1 and scan, 'ObjStringIter::next advances at least one byte and on to the next character boundary', 'the string cursor no longer advances by whole characters', s_.loc())
+    olds = reads_of(s_, 'pos', lambda rr: rr.get('rv') == 'use')
+    st = stores_to(s_, 'pos')
+    first_store = min(st) if st else None
+    tup = [x['r'] for b in s_.blocks for x in b['s'] if x.get('r', {}).get('rv') == 'agg' and x['r'].get('tuple') and len(x['r'].get('ops', [])) == 2]
+    start_ok = False
+    for t_ in tup:
+        pl = op_place(t_['ops'][0])
+        src = copy_source(s_, pl['l']) if pl else None
+        cands = [o for o in olds if o[2] == src]
+        start_ok = start_ok or any(first_store is not None and all(before(s_, o[:2], x) for x in st) for o in cands)
+    r.check(inc1 and scan and start_ok, 'ObjStringIter::next yields (old position, next character boundary), advancing at least one byte',
+            'the string cursor no longer yields the character that starts at the cursor (advance %s, boundary scan %s, start saved before advancing %s)' % (inc1, scan, start_ok), s_.loc())
 
 
 def q4(rep, w):
@@ -125,3 +191,24 @@ def q4(rep, w):
     r.check(bool(blk) and bool(push) and bool(inx) and all(i in f.reachable_blocks(p) for p in push for i in inx) and all(b in f.reachable_blocks(i) for i in inx for b in blk),
             'loop header (push_loop) precedes IterNext, which precedes the body', 'the loop start is recorded after IterNext (continue would skip fetching the next element) or the body '
             'precedes the fetch', f.loc())
+
+
+def q5(rep, w):
+    """an iterator keeps the value it walks alive: its `iterable` edge is followed by the collector (C01.R1 restricted to the four
+    cursor types). A literal or temporary iterable (`for i in 0..3`, `v.iter().map(..)`) is referenced by nothing else."""
+    r = rep.rule('Q5', 'every built-in iterator traces its iterable (the loop\'s only reference to a temporary collection)', floor=4)
+    res, impls, hm_cov = c01.audit_types(w)
+    seen = 0
+    for x in res:
+        if x['adt'] not in {OBJ + ty for _, ty in KINDS}:
+            continue
+        for lab in x['comps']:
+            if lab[0] != 'iterable':
+                continue
+            seen += 1
+            inm, inb = lab in x['mark'], lab in x['blacken']
+            r.check(inm and inb, '%s.iterable is marked and blackened' % x['adt'].rsplit('::', 1)[-1],
+                    'the iterator does not keep its iterable alive (mark: %s, blacken: %s): a loop over a temporary reads freed memory after the next collection' % (inm, inb),
+                    w.fns[x['impl']['mark']].loc())
+    if seen < 4:
+        raise Broken('C18', 'floor', 'iterator types with an iterable edge: %d' % seen)
